@@ -163,6 +163,9 @@ func (c *Ctx) checkGapSafeDeletes(rule string, fMap *types.Var, eng *lockEngine,
 	sites := c.staticCallSites()
 	nSites := 0
 	for _, h := range helpers {
+		if dyn := c.dynamicCallers(h.fn); len(dyn) > 0 {
+			c.bad(rule+"-caller", c.fnKey(h.fn)+":closed-world", dyn[0].Pos(), "the re-validating delete helper can be reached through an interface or function value (VTA call graph): the scope its callers pass cannot be checked", c.describe(dyn[0].(ssa.Instruction)))
+		}
 		for _, cs := range sites[h.fn] {
 			nSites++
 			caller := cs.Parent()
